@@ -118,6 +118,18 @@ def map_info(scr):
     return {"blue": blue, "cross": (best_r, best_c), "box": (top, bottom, left, right)}
 
 
+def stable_map(s, timeout=4.0):
+    """the map once two looks 0.15 s apart agree (a redraw may lag behind the processed frames)"""
+    end = time.time() + timeout
+    a = map_info(s.fresh_screen())
+    while True:
+        s.p.pump(0.15)
+        b = map_info(s.fresh_screen())
+        if sorted(a["blue"]) == sorted(b["blue"]) and a["box"] == b["box"] or time.time() > end:
+            return b
+        a = b
+
+
 def run_expiry_case(case):
     """Stats / table bookkeeping across expiry: aircraft time out (--filter-time 2) and come back"""
     fails = []
@@ -242,16 +254,10 @@ def run_case(case):
                     fails.append(("C18/terminated", f"radar terminated: {s.stderr()[-300:]}"))
                     return fails
                 raise Inconclusive("frames not processed within 8 s")
-            time.sleep(0.15)
-            mi = map_info(s.fresh_screen())
-            new = [b for b in mi["blue"] if b not in seen_blue]
-            seen_blue.update(mi["blue"])
-            if new:
-                markers[i] = new
         exp = F.helper({"cmd": "trackdump", "frames": all_frames, "rx": list(rx), "range": 500.0})
         recs = exp["dump"]["records"]
         keys = sorted(recs)
-        mi0 = map_info(s.fresh_screen())
+        mi0 = stable_map(s)
 
         # ---- Airplanes tab
         def check_table(tag):
@@ -302,8 +308,7 @@ def run_case(case):
         # ---- map geometry (taken before any view control)
         s.press("F1")
         s.wait_for(lambda: map_info(s.fresh_screen())["box"][0] is not None, 4.0)
-        time.sleep(0.15)
-        mi = map_info(s.fresh_screen())
+        mi = stable_map(s)
         top, bottom, left, right = mi["box"]
         cr, cc = mi["cross"]
         if top is None or cr is None:
@@ -331,27 +336,37 @@ def run_case(case):
         col_per_deg = inner_w / (800.0 / upd)
         row_per_my = inner_h / (800.0 / (scale * 500000 / (2 * math.pi)))
         calib = []
+        # Which marker belongs to which aircraft is decided by place, not by the moment a cell
+        # turned blue (under load a redraw can come late): the marker of an aircraft is the blue
+        # cell nearest to where the canvas geometry puts it (within 3 cells); the proportionality
+        # check below then measures the scale from the markers themselves.
+        blue_now = list(mi["blue"])
+
+        def nearest(pr, pc, tol=3.0):
+            best = None
+            for b in blue_now:
+                d = max(abs(b[0] - pr), abs(b[1] - pc))
+                if d <= tol and (best is None or d < best[0]):
+                    best = (d, b)
+            return best[1] if best else None
+
         # with labels on, label text can overwrite marker cells: marker geometry is checked only with labels off
         for (i, k, p, dlon, dmy, cells) in ([] if labels else placed):
             vis = abs(dlon * upd) < 385 and abs(dmy * scale * 500000 / (2 * math.pi)) < 385
             if not vis:
                 continue
-            if not cells:
-                # no new cell appeared when it was fed: it may share a cell with an earlier marker
-                for (i2, k2, p2, dlon2, dmy2, cells2) in placed:
-                    if cells2 and abs(dlon2 - dlon) * col_per_deg < 1.5 and abs(dmy2 - dmy) * row_per_my < 1.5:
-                        cells = cells2
-                        break
-            if not cells:
-                fails.append(("C18/map/marker_missing", f"aircraft {k} at {p} (inside the plotted area) has no marker"))
+            pr, pc = cr - dmy * row_per_my, cc + dlon * col_per_deg
+            cell = nearest(pr, pc)
+            if cell is None:
+                # not where it belongs: mirrored, or nowhere?
+                if abs(dlon) * col_per_deg > 3.5 and nearest(pr, cc - dlon * col_per_deg) is not None:
+                    fails.append(("C18/map/east_west", f"aircraft {k} is {'east' if dlon > 0 else 'west'} of the receiver but its marker is on the other side of the centre (expected near column {pc:.1f}, centre {cc})"))
+                elif abs(dmy) * row_per_my > 3.5 and nearest(cr + dmy * row_per_my, pc) is not None:
+                    fails.append(("C18/map/north_south", f"aircraft {k} is {'north' if dmy > 0 else 'south'} of the receiver but its marker is on the other side of the centre (expected near row {pr:.1f}, centre {cr})"))
+                else:
+                    fails.append(("C18/map/marker_missing", f"aircraft {k} at {p} (inside the plotted area) has no marker near row {pr:.1f}, column {pc:.1f}; markers at {sorted(blue_now)[:8]}"))
                 continue
-            r = sum(c[0] for c in cells) / len(cells)
-            c = sum(c[1] for c in cells) / len(cells)
-            # direction
-            if abs(dlon) * col_per_deg > 2.0 and (c - cc > 0) != (dlon > 0):
-                fails.append(("C18/map/east_west", f"aircraft {k} is {'east' if dlon > 0 else 'west'} of the receiver but drawn {'right' if c - cc > 0 else 'left'} of the centre (col {c} vs {cc})"))
-            if abs(dmy) * row_per_my > 2.0 and (cr - r > 0) != (dmy > 0):
-                fails.append(("C18/map/north_south", f"aircraft {k} is {'north' if dmy > 0 else 'south'} of the receiver but drawn {'above' if cr - r > 0 else 'below'} the centre (row {r} vs {cr})"))
+            r, c = float(cell[0]), float(cell[1])
             calib.append((k, dlon, dmy, r, c))
         # proportionality, self-calibrating: scale measured from the marker farthest from the centre
         if len(calib) >= 2:
@@ -398,12 +413,12 @@ def run_case(case):
                 s.p.write(mouse_sgr("down", 80, 25) + mouse_sgr("drag", 80, 25) + mouse_sgr("drag", 80 + v[1], 25 + v[2]) + mouse_sgr("up", 80 + v[1], 25 + v[2]))
             time.sleep(0.12)
         if seq:
-            time.sleep(0.3)
-            moved = sorted(map_info(s.fresh_screen())["blue"])
+            time.sleep(0.15)
+            mi2 = stable_map(s)
+            moved = sorted(mi2["blue"])
             only_zoom = all(v[0] in ("zoom", "scroll") for v in seq)
             if only_zoom and zoom != 0 and len(calib) >= 1:
                 k = 1.1 ** zoom
-                mi2 = map_info(s.fresh_screen())
                 for (kk, dlon, dmy, r, c) in calib:
                     pr, pc = cr - (cr - r) * k, cc + (c - cc) * k
                     if top + 2 < pr < bottom - 2 and left + 2 < pc < right - 2:
